@@ -241,6 +241,37 @@ def rw_drop_cfg_debug(text: str) -> str:
     text = text[:start] + text[end:]
 
 
+def rw_range_map_collect(text: str) -> str:
+  """R13m: `let NAME = (0..N).map(|_| { BODY }).collect::<Vec<T>>();` -> the loop the iterator chain runs:
+       let verif_n = N; let mut verif_out: Vec<T> = Vec::new(); let mut verif_k = 0;
+       while verif_k < verif_n { let verif_e: T = { BODY }; verif_out.push(verif_e); verif_k += 1; }
+       let NAME = verif_out;
+     N and BODY are copied unchanged (map over a range is lazy and in order; collect pushes in order)."""
+  m = re.search(r'let\s+(\w+)\s*=\s*\(0\.\.', text)
+  if not m: raise Undecided('R13m: no `let X = (0..N).map(..).collect()`')
+  toks = rsitems.lex(text)
+  kopen = next(k for k, t in enumerate(toks) if t.start == m.end() - 4 and t.text == '(')
+  kclose = rsitems.match_close(toks, kopen)
+  n_expr = text[toks[kopen].end:toks[kclose].start].strip()
+  if not n_expr.startswith('0..'): raise Undecided('R13m: range does not start at 0')
+  n_expr = n_expr[3:].strip()
+  rest = text[toks[kclose].end:]
+  mm = re.match(r'\s*\.\s*map\s*\(\s*\|\s*_\s*\|\s*\{', rest)
+  if not mm: raise Undecided('R13m: expected `.map(|_| {`')
+  bopen_off = toks[kclose].end + mm.end() - 1
+  kb = next(k for k, t in enumerate(toks) if t.start == bopen_off)
+  kbc = rsitems.match_close(toks, kb)
+  body = text[toks[kb].end:toks[kbc].start]
+  after = text[toks[kbc].end:]
+  mc = re.match(r'\s*\)\s*\.\s*collect::<Vec<(.*?)>>\(\)\s*;', after, flags=re.S)
+  if not mc: raise Undecided('R13m: expected `).collect::<Vec<T>>();`')
+  ty = mc.group(1).strip()
+  name = m.group(1)
+  new = ('let verif_n = %s;\n    let mut verif_out: Vec<%s> = Vec::new();\n    let mut verif_k = 0;\n    while verif_k < verif_n {\n      let verif_e: %s = {%s};\n      verif_out.push(verif_e);\n      verif_k += 1;\n    }\n    let %s = verif_out;'
+         % (n_expr, ty, ty, body, name))
+  return text[:m.start()] + new + after[mc.end():]
+
+
 def rw_mut_self(text: str) -> str:
   """R1: `fn f(mut self, ...) { B }` -> `fn f(self, ...) { let mut this = self; B[self:=this] }`"""
   a = fn_anatomy(text)
@@ -777,6 +808,7 @@ def build_unit(name: str, variant: Optional[str] = None, canary: bool = False) -
         elif rule == 'R1': new = rw_mut_self(new)
         elif rule == 'R4g': new = rw_option_tail(new)
         elif rule == 'R15': new = rw_trace_log(new)
+        elif rule == 'R13m': new = rw_range_map_collect(new)
         elif rule == 'R3d': new = rw_drop_cfg_debug(new)
         elif rule == 'R2': new = rw_slice_match(new)
         elif rule == 'R10': new = rw_project_struct(new, args['keep'])
